@@ -308,6 +308,10 @@ def run_job(job, wall_limit):
             how = confirm_hang(job, n)
             if how.startswith("hang"):
                 job.hangs.append(dict(n=n, desc=hs[-1].get("desc", ""), stacks=hs[-1].get("stacks", "")[:4000], how=how))
+                # one confirmed hang is a verdict for the job; a tree on which every case of the job hangs must not
+                # cost a confirmation per case
+                job.incon.append("job stopped after the confirmed hang of case %d; later cases of this shard were not executed" % n)
+                break
             elif how == "returned":
                 job.incon.append("case %d exceeded the per-case deadline under load but returned when re-run alone" % n)
             else:
